@@ -7,6 +7,31 @@ package risc
 
 //@ mode bv
 
+// ---------------------------------------------------------------- InstructionRunner interface
+// Abstract view of an instruction for the clients of the interface (the
+// scoreboards and control units): how often it names a register as read /
+// written, and its type. Each implementing type defines the three functions
+// (generated `define` lines) and is checked against the interface contracts
+// below (refinement obligations); clients see only the uninterpreted functions.
+//@ abstract func readCount(self InstructionRunner, r RegisterType) int
+//@ abstract func writeCount(self InstructionRunner, r RegisterType) int
+//@ abstract func insType(self InstructionRunner) InstructionType
+//@ spec func occ(s []RegisterType, r RegisterType) int = (len(s) > 0 && s[0] == r ? 1 : 0) + (len(s) > 1 && s[1] == r ? 1 : 0)
+
+//@ func InstructionRunner.ReadRegisters
+//@   ensures len(result) <= 2
+//@   ensures forall r RegisterType :: occ(result, r) == readCount(self, r)
+//@   assigns nothing
+
+//@ func InstructionRunner.WriteRegisters
+//@   ensures len(result) <= 2
+//@   ensures forall r RegisterType :: occ(result, r) == writeCount(self, r)
+//@   assigns nothing
+
+//@ func InstructionRunner.InstructionType
+//@   ensures result == insType(self)
+//@   assigns nothing
+
 // wfZero: the context reads the zero register as 0 (context invariant
 // maintained because every Run yields Register == Zero ==> RegisterValue == 0).
 //@ spec func wfZero(ctx *Context, f Forward) bool = ctx != nil && (ctx.rat ==> wfCtxRAT(ctx)) && registerRead(ctx, f, Zero, 0) == 0 && (forall s int32 :: registerRead(ctx, f, Zero, s) == 0)
@@ -160,6 +185,137 @@ package risc
 //@   loop 0: invariant forall r RegisterType :: visited(r) ==> comp.has(ctx.committedRAT, r) && r in ctx.Registers && ctx.Registers[r] == comp.newest(ctx.committedRAT, r)
 //@   loop 0: invariant forall r RegisterType :: !visited(r) ==> (r in ctx.Registers) == old(r in ctx.Registers) && ctx.Registers[r] == old(ctx.Registers[r])
 
+// ---------------------------------------------------------------- scoreboard and hazard classification (C04)
+// The scoreboard is the pair of counter maps PendingWriteRegisters /
+// PendingReadRegisters (a missing key counts as 0). The functions below change
+// nothing else (assigns), never count the zero register, and add/release
+// exactly one unit per occurrence of a register in the instruction's declared
+// read / write lists.
+
+//@ spec func occN(s []RegisterType, n int, r RegisterType) int = (n > 0 && s[0] == r ? 1 : 0) + (n > 1 && s[1] == r ? 1 : 0)
+//@ spec func wfBoard(ctx *Context) bool = ctx != nil && ctx.PendingWriteRegisters != nil && ctx.PendingReadRegisters != nil && ctx.PendingWriteRegisters != ctx.PendingReadRegisters \
+//@    && (forall r RegisterType :: 0 <= ctx.PendingWriteRegisters[r] && 0 <= ctx.PendingReadRegisters[r])
+//@ spec func smallBoard(ctx *Context) bool = forall r RegisterType :: ctx.PendingWriteRegisters[r] <= 4611686018427387904 && ctx.PendingReadRegisters[r] <= 4611686018427387904
+
+//@ func (*Context).Flush
+//@   mode int
+//@   ensures ctx.PendingWriteRegisters != nil && ctx.PendingReadRegisters != nil
+//@   ensures forall r RegisterType :: !(r in ctx.PendingWriteRegisters) && !(r in ctx.PendingReadRegisters)
+//@   ensures len(ctx.PendingWriteRegisters) == 0 && len(ctx.PendingReadRegisters) == 0
+//@   assigns ctx.PendingWriteRegisters, ctx.PendingReadRegisters, ctx.pendingWriteMemoryIntention
+
+//@ func (*Context).AddPendingRegisters
+//@   mode int
+//@   requires wfBoard(ctx) && smallBoard(ctx)
+//@   ensures wfBoard(ctx)
+//@   ensures forall r RegisterType :: r != Zero ==> ctx.PendingReadRegisters[r] == old(ctx.PendingReadRegisters[r]) + readCount(runner, r)
+//@   ensures forall r RegisterType :: r != Zero ==> ctx.PendingWriteRegisters[r] == old(ctx.PendingWriteRegisters[r]) + writeCount(runner, r)
+//@   ensures ctx.PendingReadRegisters[Zero] == old(ctx.PendingReadRegisters[Zero]) && ctx.PendingWriteRegisters[Zero] == old(ctx.PendingWriteRegisters[Zero])
+//@   assigns ctx.PendingReadRegisters[*], ctx.PendingWriteRegisters[*]
+//@   loop 0: invariant len(_range0) <= 2 && (forall r RegisterType :: occ(_range0, r) == readCount(runner, r))
+//@   loop 0: invariant forall r RegisterType :: r != Zero ==> ctx.PendingReadRegisters[r] == old(ctx.PendingReadRegisters[r]) + occN(_range0, _idx0, r)
+//@   loop 0: invariant ctx.PendingReadRegisters[Zero] == old(ctx.PendingReadRegisters[Zero])
+//@   loop 0: invariant forall r RegisterType :: ctx.PendingWriteRegisters[r] == old(ctx.PendingWriteRegisters[r])
+//@   loop 0: invariant ctx.PendingReadRegisters == old(ctx.PendingReadRegisters) && ctx.PendingWriteRegisters == old(ctx.PendingWriteRegisters)
+//@   loop 1: invariant len(_range1) <= 2 && (forall r RegisterType :: occ(_range1, r) == writeCount(runner, r))
+//@   loop 1: invariant forall r RegisterType :: r != Zero ==> ctx.PendingWriteRegisters[r] == old(ctx.PendingWriteRegisters[r]) + occN(_range1, _idx1, r)
+//@   loop 1: invariant ctx.PendingWriteRegisters[Zero] == old(ctx.PendingWriteRegisters[Zero])
+//@   loop 1: invariant forall r RegisterType :: ctx.PendingReadRegisters[r] == old(ctx.PendingReadRegisters[r]) + (r != Zero ? readCount(runner, r) : 0)
+//@   loop 1: invariant ctx.PendingReadRegisters == old(ctx.PendingReadRegisters) && ctx.PendingWriteRegisters == old(ctx.PendingWriteRegisters)
+
+//@ func (*Context).AddPendingWriteRegisters
+//@   mode int
+//@   requires wfBoard(ctx) && smallBoard(ctx) && len(registers) <= 2
+//@   ensures forall r RegisterType :: ctx.PendingWriteRegisters[r] == old(ctx.PendingWriteRegisters[r]) + occ(registers, r)
+//@   ensures forall r RegisterType :: ctx.PendingReadRegisters[r] == old(ctx.PendingReadRegisters[r])
+//@   assigns ctx.PendingWriteRegisters[*]
+//@   loop 0: invariant forall r RegisterType :: ctx.PendingWriteRegisters[r] == old(ctx.PendingWriteRegisters[r]) + occN(registers, _idx0, r)
+//@   loop 0: invariant forall r RegisterType :: ctx.PendingReadRegisters[r] == old(ctx.PendingReadRegisters[r])
+//@   loop 0: invariant ctx.PendingWriteRegisters == old(ctx.PendingWriteRegisters) && ctx.PendingReadRegisters == old(ctx.PendingReadRegisters)
+
+// Release: one unit per occurrence, never below zero, zero register ignored;
+// architectural state (Registers, Memory, Transaction) is outside the frame.
+//@ func (*Context).DeletePendingRegisters
+//@   mode int
+//@   requires wfBoard(ctx) && smallBoard(ctx) && len(readRegisters) <= 2 && len(writeRegisters) <= 2
+//@   ensures wfBoard(ctx)
+//@   ensures forall r RegisterType :: r != Zero ==> ctx.PendingReadRegisters[r] == max(old(ctx.PendingReadRegisters[r]) - occ(readRegisters, r), 0)
+//@   ensures forall r RegisterType :: r != Zero ==> ctx.PendingWriteRegisters[r] == max(old(ctx.PendingWriteRegisters[r]) - occ(writeRegisters, r), 0)
+//@   ensures ctx.PendingReadRegisters[Zero] == old(ctx.PendingReadRegisters[Zero]) && ctx.PendingWriteRegisters[Zero] == old(ctx.PendingWriteRegisters[Zero])
+//@   assigns ctx.PendingReadRegisters[*], ctx.PendingWriteRegisters[*]
+//@   loop 0: invariant ctx.PendingReadRegisters == old(ctx.PendingReadRegisters) && ctx.PendingWriteRegisters == old(ctx.PendingWriteRegisters)
+//@   loop 0: invariant forall r RegisterType :: r != Zero ==> ctx.PendingReadRegisters[r] == max(old(ctx.PendingReadRegisters[r]) - occN(readRegisters, _idx0, r), 0)
+//@   loop 0: invariant ctx.PendingReadRegisters[Zero] == old(ctx.PendingReadRegisters[Zero])
+//@   loop 0: invariant forall r RegisterType :: ctx.PendingWriteRegisters[r] == old(ctx.PendingWriteRegisters[r])
+//@   loop 1: invariant ctx.PendingReadRegisters == old(ctx.PendingReadRegisters) && ctx.PendingWriteRegisters == old(ctx.PendingWriteRegisters)
+//@   loop 1: invariant forall r RegisterType :: r != Zero ==> ctx.PendingWriteRegisters[r] == max(old(ctx.PendingWriteRegisters[r]) - occN(writeRegisters, _idx1, r), 0)
+//@   loop 1: invariant ctx.PendingWriteRegisters[Zero] == old(ctx.PendingWriteRegisters[Zero])
+//@   loop 1: invariant forall r RegisterType :: ctx.PendingReadRegisters[r] == (r != Zero ? max(old(ctx.PendingReadRegisters[r]) - occ(readRegisters, r), 0) : old(ctx.PendingReadRegisters[r]))
+
+//@ func (*Context).DeletePendingWriteRegisters
+//@   mode int
+//@   requires wfBoard(ctx) && smallBoard(ctx) && len(registers) <= 2
+//@   ensures forall r RegisterType :: ctx.PendingWriteRegisters[r] == max(old(ctx.PendingWriteRegisters[r]) - occ(registers, r), 0)
+//@   ensures forall r RegisterType :: ctx.PendingReadRegisters[r] == old(ctx.PendingReadRegisters[r])
+//@   assigns ctx.PendingWriteRegisters[*]
+//@   loop 0: invariant ctx.PendingReadRegisters == old(ctx.PendingReadRegisters) && ctx.PendingWriteRegisters == old(ctx.PendingWriteRegisters)
+//@   loop 0: invariant forall r RegisterType :: ctx.PendingWriteRegisters[r] == max(old(ctx.PendingWriteRegisters[r]) - occN(registers, _idx0, r), 0)
+//@   loop 0: invariant forall r RegisterType :: ctx.PendingReadRegisters[r] == old(ctx.PendingReadRegisters[r])
+
+//@ func (*Context).IsWriteDataHazard
+//@   mode int
+//@   requires ctx != nil
+//@   ensures result == (exists i :: 0 <= i && i < len(registers) && registers[i] != Zero && ctx.PendingWriteRegisters[registers[i]] > 0)
+//@   assigns nothing
+//@   loop 0: invariant forall j :: 0 <= j && j < _idx0 ==> !(registers[j] != Zero && ctx.PendingWriteRegisters[registers[j]] > 0)
+
+// RAW test used by MVP-6.0: a hazard is reported exactly when some non-zero
+// register the instruction reads has a pending write.
+//@ func (*Context).IsDataHazard
+//@   mode int
+//@   requires ctx != nil
+//@   ensures result == (exists r RegisterType :: r != Zero && readCount(runner, r) > 0 && ctx.PendingWriteRegisters[r] > 0)
+//@   assigns nothing
+//@   loop 0: invariant len(_range0) <= 2 && (forall r RegisterType :: occ(_range0, r) == readCount(runner, r))
+//@   loop 0: invariant forall j :: 0 <= j && j < _idx0 ==> !(_range0[j] != Zero && ctx.PendingWriteRegisters[_range0[j]] > 0)
+
+// Hazard classification used by MVP-6.1+: RAW for read registers with a
+// pending write, WAW / WAR for written registers with a pending write / read;
+// the zero register never conflicts; the type map is exactly the set of
+// reported types. Every reported hazard is justified and every real hazard is
+// reported ("no hazard reported" => no register of the instruction is pending).
+//@ spec func isRAW(ctx *Context, runner InstructionRunner, r RegisterType) bool = r != Zero && readCount(runner, r) > 0 && ctx.PendingWriteRegisters[r] > 0
+//@ spec func isWAW(ctx *Context, runner InstructionRunner, r RegisterType) bool = r != Zero && writeCount(runner, r) > 0 && ctx.PendingWriteRegisters[r] > 0
+//@ spec func isWAR(ctx *Context, runner InstructionRunner, r RegisterType) bool = r != Zero && writeCount(runner, r) > 0 && ctx.PendingReadRegisters[r] > 0
+//@ spec func justified(ctx *Context, runner InstructionRunner, h Hazard) bool = (h.Type == ReadAfterWrite && isRAW(ctx, runner, h.Register)) || (h.Type == WriteAfterWrite && isWAW(ctx, runner, h.Register)) || (h.Type == WriteAfterRead && isWAR(ctx, runner, h.Register))
+
+//@ func (*Context).IsDataHazard3
+//@   mode int
+//@   requires ctx != nil
+//@   ensures forall j :: 0 <= j && j < len(result) ==> justified(ctx, runner, result[j])
+//@   ensures forall r RegisterType :: isRAW(ctx, runner, r) ==> (exists j :: 0 <= j && j < len(result) && result[j].Type == ReadAfterWrite && result[j].Register == r)
+//@   ensures forall r RegisterType :: isWAW(ctx, runner, r) ==> (exists j :: 0 <= j && j < len(result) && result[j].Type == WriteAfterWrite && result[j].Register == r)
+//@   ensures forall r RegisterType :: isWAR(ctx, runner, r) ==> (exists j :: 0 <= j && j < len(result) && result[j].Type == WriteAfterRead && result[j].Register == r)
+//@   ensures result1 != nil && fresh(result1)
+//@   ensures forall t HazardType :: (t in result1) ==> result1[t]
+//@   ensures forall t HazardType :: (t in result1) == (exists j :: 0 <= j && j < len(result) && result[j].Type == t)
+//@   ensures len(result) <= 6
+//@   assigns nothing
+//@   loop 0: invariant len(_range0) <= 2 && (forall r RegisterType :: occ(_range0, r) == readCount(runner, r)) && len(hazards) <= _idx0
+//@   loop 0: invariant (cap(hazards) == 0 || fresh(hazards)) && fresh(hazardTypes)
+//@   loop 0: invariant forall j :: 0 <= j && j < len(hazards) ==> justified(ctx, runner, hazards[j])
+//@   loop 0: invariant forall i :: 0 <= i && i < _idx0 && isRAW(ctx, runner, _range0[i]) ==> (exists j :: 0 <= j && j < len(hazards) && hazards[j].Type == ReadAfterWrite && hazards[j].Register == _range0[i])
+//@   loop 0: invariant forall t HazardType :: (t in hazardTypes) ==> hazardTypes[t]
+//@   loop 0: invariant forall t HazardType :: (t in hazardTypes) == (exists j :: 0 <= j && j < len(hazards) && hazards[j].Type == t)
+//@   loop 1: invariant len(_range1) <= 2 && (forall r RegisterType :: occ(_range1, r) == writeCount(runner, r)) && len(hazards) <= 2 + 2 * _idx1
+//@   loop 1: invariant (cap(hazards) == 0 || fresh(hazards)) && fresh(hazardTypes)
+//@   loop 1: invariant forall j :: 0 <= j && j < len(hazards) ==> justified(ctx, runner, hazards[j])
+//@   loop 1: invariant forall r RegisterType :: isRAW(ctx, runner, r) ==> (exists j :: 0 <= j && j < len(hazards) && hazards[j].Type == ReadAfterWrite && hazards[j].Register == r)
+//@   loop 1: invariant forall i :: 0 <= i && i < _idx1 && isWAW(ctx, runner, _range1[i]) ==> (exists j :: 0 <= j && j < len(hazards) && hazards[j].Type == WriteAfterWrite && hazards[j].Register == _range1[i])
+//@   loop 1: invariant forall i :: 0 <= i && i < _idx1 && isWAR(ctx, runner, _range1[i]) ==> (exists j :: 0 <= j && j < len(hazards) && hazards[j].Type == WriteAfterRead && hazards[j].Register == _range1[i])
+//@   loop 1: invariant forall t HazardType :: (t in hazardTypes) ==> hazardTypes[t]
+//@   loop 1: invariant forall t HazardType :: (t in hazardTypes) == (exists j :: 0 <= j && j < len(hazards) && hazards[j].Type == t)
+
 // ---- generated by /verif/contracts/gen_risc.py from the RV32IM table ----
 
 //@ mode bv
@@ -172,6 +328,9 @@ package risc
 //@   ensures result1 == nil ==> result.Register == op.rd
 //@   ensures result1 == nil ==> result.RegisterValue == (op.rd == Zero ? 0 : (old(registerRead(ctx, op.forward, op.rs1, sequenceID))) + (old(registerRead(ctx, op.forward, op.rs2, sequenceID))))
 //@   assigns nothing
+//@ define readCount(self *add, r RegisterType) = (self.rs1 == r ? 1 : 0) + (self.rs2 == r ? 1 : 0)
+//@ define writeCount(self *add, r RegisterType) = (self.rd == r ? 1 : 0)
+//@ define insType(self *add) = Add
 //@ func (*add).ReadRegisters
 //@   ensures len(result) == 2 && ((result[0] == op.rs1 && result[1] == op.rs2) || (result[0] == op.rs2 && result[1] == op.rs1))
 //@   assigns nothing
@@ -199,6 +358,9 @@ package risc
 //@   ensures result1 == nil ==> result.Register == op.rd
 //@   ensures result1 == nil ==> result.RegisterValue == (op.rd == Zero ? 0 : (old(registerRead(ctx, op.forward, op.rs, sequenceID))) + op.imm)
 //@   assigns nothing
+//@ define readCount(self *addi, r RegisterType) = (self.rs == r ? 1 : 0)
+//@ define writeCount(self *addi, r RegisterType) = (self.rd == r ? 1 : 0)
+//@ define insType(self *addi) = Addi
 //@ func (*addi).ReadRegisters
 //@   ensures len(result) == 1 && result[0] == op.rs
 //@   assigns nothing
@@ -226,6 +388,9 @@ package risc
 //@   ensures result1 == nil ==> result.Register == op.rd
 //@   ensures result1 == nil ==> result.RegisterValue == (op.rd == Zero ? 0 : (old(registerRead(ctx, op.forward, op.rs1, sequenceID))) & (old(registerRead(ctx, op.forward, op.rs2, sequenceID))))
 //@   assigns nothing
+//@ define readCount(self *and, r RegisterType) = (self.rs1 == r ? 1 : 0) + (self.rs2 == r ? 1 : 0)
+//@ define writeCount(self *and, r RegisterType) = (self.rd == r ? 1 : 0)
+//@ define insType(self *and) = And
 //@ func (*and).ReadRegisters
 //@   ensures len(result) == 2 && ((result[0] == op.rs1 && result[1] == op.rs2) || (result[0] == op.rs2 && result[1] == op.rs1))
 //@   assigns nothing
@@ -253,6 +418,9 @@ package risc
 //@   ensures result1 == nil ==> result.Register == op.rd
 //@   ensures result1 == nil ==> result.RegisterValue == (op.rd == Zero ? 0 : (old(registerRead(ctx, op.forward, op.rs, sequenceID))) & op.imm)
 //@   assigns nothing
+//@ define readCount(self *andi, r RegisterType) = (self.rs == r ? 1 : 0)
+//@ define writeCount(self *andi, r RegisterType) = (self.rd == r ? 1 : 0)
+//@ define insType(self *andi) = Andi
 //@ func (*andi).ReadRegisters
 //@   ensures len(result) == 1 && result[0] == op.rs
 //@   assigns nothing
@@ -279,6 +447,9 @@ package risc
 //@   ensures result1 == nil ==> result.Register == op.rd
 //@   ensures result1 == nil ==> result.RegisterValue == (op.rd == Zero ? 0 : pc + (op.imm << 12))
 //@   assigns nothing
+//@ define readCount(self *auipc, r RegisterType) = 0
+//@ define writeCount(self *auipc, r RegisterType) = (self.rd == r ? 1 : 0)
+//@ define insType(self *auipc) = Auipc
 //@ func (*auipc).ReadRegisters
 //@   ensures len(result) == 0
 //@   assigns nothing
@@ -305,6 +476,9 @@ package risc
 //@   ensures result1 == nil && ((old(registerRead(ctx, op.forward, op.rs1, sequenceID))) == (old(registerRead(ctx, op.forward, op.rs2, sequenceID)))) ==> result.NextPc == labels[op.label]
 //@   ensures !result.RegisterChange && !result.MemoryChange && !result.Return
 //@   assigns nothing
+//@ define readCount(self *beq, r RegisterType) = (self.rs1 == r ? 1 : 0) + (self.rs2 == r ? 1 : 0)
+//@ define writeCount(self *beq, r RegisterType) = 0
+//@ define insType(self *beq) = Beq
 //@ func (*beq).ReadRegisters
 //@   ensures len(result) == 2 && ((result[0] == op.rs1 && result[1] == op.rs2) || (result[0] == op.rs2 && result[1] == op.rs1))
 //@   assigns nothing
@@ -332,6 +506,9 @@ package risc
 //@   ensures result1 == nil && ((old(registerRead(ctx, op.forward, op.rs, sequenceID))) == 0) ==> result.NextPc == labels[op.label]
 //@   ensures !result.RegisterChange && !result.MemoryChange && !result.Return
 //@   assigns nothing
+//@ define readCount(self *beqz, r RegisterType) = (self.rs == r ? 1 : 0)
+//@ define writeCount(self *beqz, r RegisterType) = 0
+//@ define insType(self *beqz) = Beqz
 //@ func (*beqz).ReadRegisters
 //@   ensures len(result) == 1 && result[0] == op.rs
 //@   assigns nothing
@@ -359,6 +536,9 @@ package risc
 //@   ensures result1 == nil && ((old(registerRead(ctx, op.forward, op.rs1, sequenceID))) >= (old(registerRead(ctx, op.forward, op.rs2, sequenceID)))) ==> result.NextPc == labels[op.label]
 //@   ensures !result.RegisterChange && !result.MemoryChange && !result.Return
 //@   assigns nothing
+//@ define readCount(self *bge, r RegisterType) = (self.rs1 == r ? 1 : 0) + (self.rs2 == r ? 1 : 0)
+//@ define writeCount(self *bge, r RegisterType) = 0
+//@ define insType(self *bge) = Bge
 //@ func (*bge).ReadRegisters
 //@   ensures len(result) == 2 && ((result[0] == op.rs1 && result[1] == op.rs2) || (result[0] == op.rs2 && result[1] == op.rs1))
 //@   assigns nothing
@@ -386,6 +566,9 @@ package risc
 //@   ensures result1 == nil && (uint32((old(registerRead(ctx, op.forward, op.rs1, sequenceID)))) >= uint32((old(registerRead(ctx, op.forward, op.rs2, sequenceID))))) ==> result.NextPc == labels[op.label]
 //@   ensures !result.RegisterChange && !result.MemoryChange && !result.Return
 //@   assigns nothing
+//@ define readCount(self *bgeu, r RegisterType) = (self.rs1 == r ? 1 : 0) + (self.rs2 == r ? 1 : 0)
+//@ define writeCount(self *bgeu, r RegisterType) = 0
+//@ define insType(self *bgeu) = Bgeu
 //@ func (*bgeu).ReadRegisters
 //@   ensures len(result) == 2 && ((result[0] == op.rs1 && result[1] == op.rs2) || (result[0] == op.rs2 && result[1] == op.rs1))
 //@   assigns nothing
@@ -413,6 +596,9 @@ package risc
 //@   ensures result1 == nil && ((old(registerRead(ctx, op.forward, op.rs1, sequenceID))) <= (old(registerRead(ctx, op.forward, op.rs2, sequenceID)))) ==> result.NextPc == labels[op.label]
 //@   ensures !result.RegisterChange && !result.MemoryChange && !result.Return
 //@   assigns nothing
+//@ define readCount(self *ble, r RegisterType) = (self.rs1 == r ? 1 : 0) + (self.rs2 == r ? 1 : 0)
+//@ define writeCount(self *ble, r RegisterType) = 0
+//@ define insType(self *ble) = Ble
 //@ func (*ble).ReadRegisters
 //@   ensures len(result) == 2 && ((result[0] == op.rs1 && result[1] == op.rs2) || (result[0] == op.rs2 && result[1] == op.rs1))
 //@   assigns nothing
@@ -440,6 +626,9 @@ package risc
 //@   ensures result1 == nil && ((old(registerRead(ctx, op.forward, op.rs1, sequenceID))) < (old(registerRead(ctx, op.forward, op.rs2, sequenceID)))) ==> result.NextPc == labels[op.label]
 //@   ensures !result.RegisterChange && !result.MemoryChange && !result.Return
 //@   assigns nothing
+//@ define readCount(self *blt, r RegisterType) = (self.rs1 == r ? 1 : 0) + (self.rs2 == r ? 1 : 0)
+//@ define writeCount(self *blt, r RegisterType) = 0
+//@ define insType(self *blt) = Blt
 //@ func (*blt).ReadRegisters
 //@   ensures len(result) == 2 && ((result[0] == op.rs1 && result[1] == op.rs2) || (result[0] == op.rs2 && result[1] == op.rs1))
 //@   assigns nothing
@@ -467,6 +656,9 @@ package risc
 //@   ensures result1 == nil && (uint32((old(registerRead(ctx, op.forward, op.rs1, sequenceID)))) < uint32((old(registerRead(ctx, op.forward, op.rs2, sequenceID))))) ==> result.NextPc == labels[op.label]
 //@   ensures !result.RegisterChange && !result.MemoryChange && !result.Return
 //@   assigns nothing
+//@ define readCount(self *bltu, r RegisterType) = (self.rs1 == r ? 1 : 0) + (self.rs2 == r ? 1 : 0)
+//@ define writeCount(self *bltu, r RegisterType) = 0
+//@ define insType(self *bltu) = Bltu
 //@ func (*bltu).ReadRegisters
 //@   ensures len(result) == 2 && ((result[0] == op.rs1 && result[1] == op.rs2) || (result[0] == op.rs2 && result[1] == op.rs1))
 //@   assigns nothing
@@ -494,6 +686,9 @@ package risc
 //@   ensures result1 == nil && ((old(registerRead(ctx, op.forward, op.rs1, sequenceID))) != (old(registerRead(ctx, op.forward, op.rs2, sequenceID)))) ==> result.NextPc == labels[op.label]
 //@   ensures !result.RegisterChange && !result.MemoryChange && !result.Return
 //@   assigns nothing
+//@ define readCount(self *bne, r RegisterType) = (self.rs1 == r ? 1 : 0) + (self.rs2 == r ? 1 : 0)
+//@ define writeCount(self *bne, r RegisterType) = 0
+//@ define insType(self *bne) = Bne
 //@ func (*bne).ReadRegisters
 //@   ensures len(result) == 2 && ((result[0] == op.rs1 && result[1] == op.rs2) || (result[0] == op.rs2 && result[1] == op.rs1))
 //@   assigns nothing
@@ -521,6 +716,9 @@ package risc
 //@   ensures result1 == nil && ((old(registerRead(ctx, op.forward, op.rs, sequenceID))) != 0) ==> result.NextPc == labels[op.label]
 //@   ensures !result.RegisterChange && !result.MemoryChange && !result.Return
 //@   assigns nothing
+//@ define readCount(self *bnez, r RegisterType) = (self.rs == r ? 1 : 0)
+//@ define writeCount(self *bnez, r RegisterType) = 0
+//@ define insType(self *bnez) = Bnez
 //@ func (*bnez).ReadRegisters
 //@   ensures len(result) == 1 && result[0] == op.rs
 //@   assigns nothing
@@ -548,6 +746,9 @@ package risc
 //@   ensures result1 == nil ==> result.Register == op.rd
 //@   ensures result1 == nil ==> result.RegisterValue == (op.rd == Zero ? 0 : (((old(registerRead(ctx, op.forward, op.rs1, sequenceID))) == -2147483648 && (old(registerRead(ctx, op.forward, op.rs2, sequenceID))) == -1) ? -2147483648 : (old(registerRead(ctx, op.forward, op.rs1, sequenceID))) / (old(registerRead(ctx, op.forward, op.rs2, sequenceID)))))
 //@   assigns nothing
+//@ define readCount(self *div, r RegisterType) = (self.rs1 == r ? 1 : 0) + (self.rs2 == r ? 1 : 0)
+//@ define writeCount(self *div, r RegisterType) = (self.rd == r ? 1 : 0)
+//@ define insType(self *div) = Div
 //@ func (*div).ReadRegisters
 //@   ensures len(result) == 2 && ((result[0] == op.rs1 && result[1] == op.rs2) || (result[0] == op.rs2 && result[1] == op.rs1))
 //@   assigns nothing
@@ -574,6 +775,9 @@ package risc
 //@   ensures result1 == nil && (true) ==> result.NextPc == labels[op.label]
 //@   ensures !result.RegisterChange && !result.MemoryChange && !result.Return
 //@   assigns nothing
+//@ define readCount(self *j, r RegisterType) = 0
+//@ define writeCount(self *j, r RegisterType) = 0
+//@ define insType(self *j) = J
 //@ func (*j).ReadRegisters
 //@   ensures len(result) == 0
 //@   assigns nothing
@@ -601,6 +805,9 @@ package risc
 //@   ensures result1 == nil ==> result.RegisterValue == (op.rd == Zero ? 0 : pc + 4)
 //@   ensures result1 == nil ==> result.NextPc == labels[op.label]
 //@   assigns nothing
+//@ define readCount(self *jal, r RegisterType) = 0
+//@ define writeCount(self *jal, r RegisterType) = (self.rd == r ? 1 : 0)
+//@ define insType(self *jal) = Jal
 //@ func (*jal).ReadRegisters
 //@   ensures len(result) == 0
 //@   assigns nothing
@@ -630,6 +837,9 @@ package risc
 //@   ensures result1 == nil ==> result.RegisterValue == (op.rd == Zero ? 0 : pc + 4)
 //@   ensures result1 == nil ==> result.NextPc == (old(registerRead(ctx, op.forward, op.rs, sequenceID)) + op.imm)
 //@   assigns nothing
+//@ define readCount(self *jalr, r RegisterType) = (self.rs == r ? 1 : 0)
+//@ define writeCount(self *jalr, r RegisterType) = (self.rd == r ? 1 : 0)
+//@ define insType(self *jalr) = Jalr
 //@ func (*jalr).ReadRegisters
 //@   ensures len(result) == 1 && result[0] == op.rs
 //@   assigns nothing
@@ -658,6 +868,9 @@ package risc
 //@   ensures result1 == nil ==> result.Register == op.rd
 //@   ensures result1 == nil ==> result.RegisterValue == (op.rd == Zero ? 0 : int32(memory[0]))
 //@   assigns nothing
+//@ define readCount(self *lb, r RegisterType) = (self.rs == r ? 1 : 0)
+//@ define writeCount(self *lb, r RegisterType) = (self.rd == r ? 1 : 0)
+//@ define insType(self *lb) = Lb
 //@ func (*lb).ReadRegisters
 //@   ensures len(result) == 1 && result[0] == op.rs
 //@   assigns nothing
@@ -688,6 +901,9 @@ package risc
 //@   ensures result1 == nil ==> result.Register == op.rd
 //@   ensures result1 == nil ==> result.RegisterValue == (op.rd == Zero ? 0 : int32(int16(uint16(uint8(memory[0])) | (uint16(uint8(memory[1])) << 8))))
 //@   assigns nothing
+//@ define readCount(self *lh, r RegisterType) = (self.rs == r ? 1 : 0)
+//@ define writeCount(self *lh, r RegisterType) = (self.rd == r ? 1 : 0)
+//@ define insType(self *lh) = Lh
 //@ func (*lh).ReadRegisters
 //@   ensures len(result) == 1 && result[0] == op.rs
 //@   assigns nothing
@@ -717,6 +933,9 @@ package risc
 //@   ensures result1 == nil ==> result.Register == op.rd
 //@   ensures result1 == nil ==> result.RegisterValue == (op.rd == Zero ? 0 : op.imm)
 //@   assigns nothing
+//@ define readCount(self *li, r RegisterType) = 0
+//@ define writeCount(self *li, r RegisterType) = (self.rd == r ? 1 : 0)
+//@ define insType(self *li) = Li
 //@ func (*li).ReadRegisters
 //@   ensures len(result) == 0
 //@   assigns nothing
@@ -742,6 +961,9 @@ package risc
 //@   ensures result1 == nil ==> result.Register == op.rd
 //@   ensures result1 == nil ==> result.RegisterValue == (op.rd == Zero ? 0 : op.imm << 12)
 //@   assigns nothing
+//@ define readCount(self *lui, r RegisterType) = 0
+//@ define writeCount(self *lui, r RegisterType) = (self.rd == r ? 1 : 0)
+//@ define insType(self *lui) = Lui
 //@ func (*lui).ReadRegisters
 //@   ensures len(result) == 0
 //@   assigns nothing
@@ -769,6 +991,9 @@ package risc
 //@   ensures result1 == nil ==> result.Register == op.rd
 //@   ensures result1 == nil ==> result.RegisterValue == (op.rd == Zero ? 0 : int32(uint32(uint8(memory[0])) | (uint32(uint8(memory[1])) << 8) | (uint32(uint8(memory[2])) << 16) | (uint32(uint8(memory[3])) << 24)))
 //@   assigns nothing
+//@ define readCount(self *lw, r RegisterType) = (self.rs == r ? 1 : 0)
+//@ define writeCount(self *lw, r RegisterType) = (self.rd == r ? 1 : 0)
+//@ define insType(self *lw) = Lw
 //@ func (*lw).ReadRegisters
 //@   ensures len(result) == 1 && result[0] == op.rs
 //@   assigns nothing
@@ -801,6 +1026,9 @@ package risc
 //@   ensures result1 == nil ==> result.Register == op.rd
 //@   ensures result1 == nil ==> result.RegisterValue == (op.rd == Zero ? 0 : (old(registerRead(ctx, op.forward, op.rs1, sequenceID))) * (old(registerRead(ctx, op.forward, op.rs2, sequenceID))))
 //@   assigns nothing
+//@ define readCount(self *mul, r RegisterType) = (self.rs1 == r ? 1 : 0) + (self.rs2 == r ? 1 : 0)
+//@ define writeCount(self *mul, r RegisterType) = (self.rd == r ? 1 : 0)
+//@ define insType(self *mul) = Mul
 //@ func (*mul).ReadRegisters
 //@   ensures len(result) == 2 && ((result[0] == op.rs1 && result[1] == op.rs2) || (result[0] == op.rs2 && result[1] == op.rs1))
 //@   assigns nothing
@@ -828,6 +1056,9 @@ package risc
 //@   ensures result1 == nil ==> result.Register == op.rd
 //@   ensures result1 == nil ==> result.RegisterValue == (op.rd == Zero ? 0 : old(registerRead(ctx, op.forward, op.rs, sequenceID)))
 //@   assigns nothing
+//@ define readCount(self *mv, r RegisterType) = (self.rs == r ? 1 : 0)
+//@ define writeCount(self *mv, r RegisterType) = (self.rd == r ? 1 : 0)
+//@ define insType(self *mv) = Mv
 //@ func (*mv).ReadRegisters
 //@   ensures len(result) == 1 && result[0] == op.rs
 //@   assigns nothing
@@ -852,6 +1083,9 @@ package risc
 //@   ensures result1 == nil
 //@   ensures !result.RegisterChange && !result.MemoryChange && !result.PcChange && !result.Return
 //@   assigns nothing
+//@ define readCount(self *nop, r RegisterType) = 0
+//@ define writeCount(self *nop, r RegisterType) = 0
+//@ define insType(self *nop) = Nop
 //@ func (*nop).ReadRegisters
 //@   ensures len(result) == 0
 //@   assigns nothing
@@ -878,6 +1112,9 @@ package risc
 //@   ensures result1 == nil ==> result.Register == op.rd
 //@   ensures result1 == nil ==> result.RegisterValue == (op.rd == Zero ? 0 : (old(registerRead(ctx, op.forward, op.rs1, sequenceID))) | (old(registerRead(ctx, op.forward, op.rs2, sequenceID))))
 //@   assigns nothing
+//@ define readCount(self *or, r RegisterType) = (self.rs1 == r ? 1 : 0) + (self.rs2 == r ? 1 : 0)
+//@ define writeCount(self *or, r RegisterType) = (self.rd == r ? 1 : 0)
+//@ define insType(self *or) = Or
 //@ func (*or).ReadRegisters
 //@   ensures len(result) == 2 && ((result[0] == op.rs1 && result[1] == op.rs2) || (result[0] == op.rs2 && result[1] == op.rs1))
 //@   assigns nothing
@@ -905,6 +1142,9 @@ package risc
 //@   ensures result1 == nil ==> result.Register == op.rd
 //@   ensures result1 == nil ==> result.RegisterValue == (op.rd == Zero ? 0 : (old(registerRead(ctx, op.forward, op.rs, sequenceID))) | op.imm)
 //@   assigns nothing
+//@ define readCount(self *ori, r RegisterType) = (self.rs == r ? 1 : 0)
+//@ define writeCount(self *ori, r RegisterType) = (self.rd == r ? 1 : 0)
+//@ define insType(self *ori) = Ori
 //@ func (*ori).ReadRegisters
 //@   ensures len(result) == 1 && result[0] == op.rs
 //@   assigns nothing
@@ -932,6 +1172,9 @@ package risc
 //@   ensures result1 == nil ==> result.Register == op.rd
 //@   ensures result1 == nil ==> result.RegisterValue == (op.rd == Zero ? 0 : (((old(registerRead(ctx, op.forward, op.rs1, sequenceID))) == -2147483648 && (old(registerRead(ctx, op.forward, op.rs2, sequenceID))) == -1) ? 0 : (old(registerRead(ctx, op.forward, op.rs1, sequenceID))) % (old(registerRead(ctx, op.forward, op.rs2, sequenceID)))))
 //@   assigns nothing
+//@ define readCount(self *rem, r RegisterType) = (self.rs1 == r ? 1 : 0) + (self.rs2 == r ? 1 : 0)
+//@ define writeCount(self *rem, r RegisterType) = (self.rd == r ? 1 : 0)
+//@ define insType(self *rem) = Rem
 //@ func (*rem).ReadRegisters
 //@   ensures len(result) == 2 && ((result[0] == op.rs1 && result[1] == op.rs2) || (result[0] == op.rs2 && result[1] == op.rs1))
 //@   assigns nothing
@@ -956,6 +1199,9 @@ package risc
 //@   ensures result1 == nil
 //@   ensures result.Return && !result.RegisterChange && !result.MemoryChange && !result.PcChange
 //@   assigns nothing
+//@ define readCount(self *ret, r RegisterType) = 0
+//@ define writeCount(self *ret, r RegisterType) = 0
+//@ define insType(self *ret) = Ret
 //@ func (*ret).ReadRegisters
 //@   ensures len(result) == 0
 //@   assigns nothing
@@ -983,6 +1229,9 @@ package risc
 //@   ensures dom(result.MemoryChanges) == {old(registerRead(ctx, op.forward, op.rd, sequenceID)) + op.offset + 0}
 //@   ensures result.MemoryChanges[old(registerRead(ctx, op.forward, op.rd, sequenceID)) + op.offset + 0] == int8(uint32(old(registerRead(ctx, op.forward, op.rs, sequenceID))) >> 0)
 //@   assigns nothing
+//@ define readCount(self *sb, r RegisterType) = (self.rd == r ? 1 : 0) + (self.rs == r ? 1 : 0)
+//@ define writeCount(self *sb, r RegisterType) = 0
+//@ define insType(self *sb) = Sb
 //@ func (*sb).ReadRegisters
 //@   ensures len(result) == 2 && ((result[0] == op.rd && result[1] == op.rs) || (result[0] == op.rs && result[1] == op.rd))
 //@   assigns nothing
@@ -1014,6 +1263,9 @@ package risc
 //@   ensures result.MemoryChanges[old(registerRead(ctx, op.forward, op.rd, sequenceID)) + op.offset + 0] == int8(uint32(old(registerRead(ctx, op.forward, op.rs, sequenceID))) >> 0)
 //@   ensures result.MemoryChanges[old(registerRead(ctx, op.forward, op.rd, sequenceID)) + op.offset + 1] == int8(uint32(old(registerRead(ctx, op.forward, op.rs, sequenceID))) >> 8)
 //@   assigns nothing
+//@ define readCount(self *sh, r RegisterType) = (self.rd == r ? 1 : 0) + (self.rs == r ? 1 : 0)
+//@ define writeCount(self *sh, r RegisterType) = 0
+//@ define insType(self *sh) = Sh
 //@ func (*sh).ReadRegisters
 //@   ensures len(result) == 2 && ((result[0] == op.rd && result[1] == op.rs) || (result[0] == op.rs && result[1] == op.rd))
 //@   assigns nothing
@@ -1044,6 +1296,9 @@ package risc
 //@   ensures result1 == nil ==> result.Register == op.rd
 //@   ensures result1 == nil ==> result.RegisterValue == (op.rd == Zero ? 0 : (old(registerRead(ctx, op.forward, op.rs1, sequenceID))) << (uint32((old(registerRead(ctx, op.forward, op.rs2, sequenceID)))) & 31))
 //@   assigns nothing
+//@ define readCount(self *sll, r RegisterType) = (self.rs1 == r ? 1 : 0) + (self.rs2 == r ? 1 : 0)
+//@ define writeCount(self *sll, r RegisterType) = (self.rd == r ? 1 : 0)
+//@ define insType(self *sll) = Sll
 //@ func (*sll).ReadRegisters
 //@   ensures len(result) == 2 && ((result[0] == op.rs1 && result[1] == op.rs2) || (result[0] == op.rs2 && result[1] == op.rs1))
 //@   assigns nothing
@@ -1071,6 +1326,9 @@ package risc
 //@   ensures result1 == nil ==> result.Register == op.rd
 //@   ensures result1 == nil ==> result.RegisterValue == (op.rd == Zero ? 0 : (old(registerRead(ctx, op.forward, op.rs, sequenceID))) << (uint32(op.imm) & 31))
 //@   assigns nothing
+//@ define readCount(self *slli, r RegisterType) = (self.rs == r ? 1 : 0)
+//@ define writeCount(self *slli, r RegisterType) = (self.rd == r ? 1 : 0)
+//@ define insType(self *slli) = Slli
 //@ func (*slli).ReadRegisters
 //@   ensures len(result) == 1 && result[0] == op.rs
 //@   assigns nothing
@@ -1098,6 +1356,9 @@ package risc
 //@   ensures result1 == nil ==> result.Register == op.rd
 //@   ensures result1 == nil ==> result.RegisterValue == (op.rd == Zero ? 0 : ((old(registerRead(ctx, op.forward, op.rs1, sequenceID))) < (old(registerRead(ctx, op.forward, op.rs2, sequenceID))) ? int32(1) : int32(0)))
 //@   assigns nothing
+//@ define readCount(self *slt, r RegisterType) = (self.rs1 == r ? 1 : 0) + (self.rs2 == r ? 1 : 0)
+//@ define writeCount(self *slt, r RegisterType) = (self.rd == r ? 1 : 0)
+//@ define insType(self *slt) = Slt
 //@ func (*slt).ReadRegisters
 //@   ensures len(result) == 2 && ((result[0] == op.rs1 && result[1] == op.rs2) || (result[0] == op.rs2 && result[1] == op.rs1))
 //@   assigns nothing
@@ -1125,6 +1386,9 @@ package risc
 //@   ensures result1 == nil ==> result.Register == op.rd
 //@   ensures result1 == nil ==> result.RegisterValue == (op.rd == Zero ? 0 : ((old(registerRead(ctx, op.forward, op.rs, sequenceID))) < op.imm ? int32(1) : int32(0)))
 //@   assigns nothing
+//@ define readCount(self *slti, r RegisterType) = (self.rs == r ? 1 : 0)
+//@ define writeCount(self *slti, r RegisterType) = (self.rd == r ? 1 : 0)
+//@ define insType(self *slti) = Slti
 //@ func (*slti).ReadRegisters
 //@   ensures len(result) == 1 && result[0] == op.rs
 //@   assigns nothing
@@ -1152,6 +1416,9 @@ package risc
 //@   ensures result1 == nil ==> result.Register == op.rd
 //@   ensures result1 == nil ==> result.RegisterValue == (op.rd == Zero ? 0 : (uint32((old(registerRead(ctx, op.forward, op.rs1, sequenceID)))) < uint32((old(registerRead(ctx, op.forward, op.rs2, sequenceID)))) ? int32(1) : int32(0)))
 //@   assigns nothing
+//@ define readCount(self *sltu, r RegisterType) = (self.rs1 == r ? 1 : 0) + (self.rs2 == r ? 1 : 0)
+//@ define writeCount(self *sltu, r RegisterType) = (self.rd == r ? 1 : 0)
+//@ define insType(self *sltu) = Sltu
 //@ func (*sltu).ReadRegisters
 //@   ensures len(result) == 2 && ((result[0] == op.rs1 && result[1] == op.rs2) || (result[0] == op.rs2 && result[1] == op.rs1))
 //@   assigns nothing
@@ -1179,6 +1446,9 @@ package risc
 //@   ensures result1 == nil ==> result.Register == op.rd
 //@   ensures result1 == nil ==> result.RegisterValue == (op.rd == Zero ? 0 : (old(registerRead(ctx, op.forward, op.rs1, sequenceID))) >> (uint32((old(registerRead(ctx, op.forward, op.rs2, sequenceID)))) & 31))
 //@   assigns nothing
+//@ define readCount(self *sra, r RegisterType) = (self.rs1 == r ? 1 : 0) + (self.rs2 == r ? 1 : 0)
+//@ define writeCount(self *sra, r RegisterType) = (self.rd == r ? 1 : 0)
+//@ define insType(self *sra) = Sra
 //@ func (*sra).ReadRegisters
 //@   ensures len(result) == 2 && ((result[0] == op.rs1 && result[1] == op.rs2) || (result[0] == op.rs2 && result[1] == op.rs1))
 //@   assigns nothing
@@ -1206,6 +1476,9 @@ package risc
 //@   ensures result1 == nil ==> result.Register == op.rd
 //@   ensures result1 == nil ==> result.RegisterValue == (op.rd == Zero ? 0 : (old(registerRead(ctx, op.forward, op.rs, sequenceID))) >> (uint32(op.imm) & 31))
 //@   assigns nothing
+//@ define readCount(self *srai, r RegisterType) = (self.rs == r ? 1 : 0)
+//@ define writeCount(self *srai, r RegisterType) = (self.rd == r ? 1 : 0)
+//@ define insType(self *srai) = Srai
 //@ func (*srai).ReadRegisters
 //@   ensures len(result) == 1 && result[0] == op.rs
 //@   assigns nothing
@@ -1233,6 +1506,9 @@ package risc
 //@   ensures result1 == nil ==> result.Register == op.rd
 //@   ensures result1 == nil ==> result.RegisterValue == (op.rd == Zero ? 0 : int32(uint32((old(registerRead(ctx, op.forward, op.rs1, sequenceID)))) >> (uint32((old(registerRead(ctx, op.forward, op.rs2, sequenceID)))) & 31)))
 //@   assigns nothing
+//@ define readCount(self *srl, r RegisterType) = (self.rs1 == r ? 1 : 0) + (self.rs2 == r ? 1 : 0)
+//@ define writeCount(self *srl, r RegisterType) = (self.rd == r ? 1 : 0)
+//@ define insType(self *srl) = Srl
 //@ func (*srl).ReadRegisters
 //@   ensures len(result) == 2 && ((result[0] == op.rs1 && result[1] == op.rs2) || (result[0] == op.rs2 && result[1] == op.rs1))
 //@   assigns nothing
@@ -1260,6 +1536,9 @@ package risc
 //@   ensures result1 == nil ==> result.Register == op.rd
 //@   ensures result1 == nil ==> result.RegisterValue == (op.rd == Zero ? 0 : int32(uint32((old(registerRead(ctx, op.forward, op.rs, sequenceID)))) >> (uint32(op.imm) & 31)))
 //@   assigns nothing
+//@ define readCount(self *srli, r RegisterType) = (self.rs == r ? 1 : 0)
+//@ define writeCount(self *srli, r RegisterType) = (self.rd == r ? 1 : 0)
+//@ define insType(self *srli) = Srli
 //@ func (*srli).ReadRegisters
 //@   ensures len(result) == 1 && result[0] == op.rs
 //@   assigns nothing
@@ -1287,6 +1566,9 @@ package risc
 //@   ensures result1 == nil ==> result.Register == op.rd
 //@   ensures result1 == nil ==> result.RegisterValue == (op.rd == Zero ? 0 : (old(registerRead(ctx, op.forward, op.rs1, sequenceID))) - (old(registerRead(ctx, op.forward, op.rs2, sequenceID))))
 //@   assigns nothing
+//@ define readCount(self *sub, r RegisterType) = (self.rs1 == r ? 1 : 0) + (self.rs2 == r ? 1 : 0)
+//@ define writeCount(self *sub, r RegisterType) = (self.rd == r ? 1 : 0)
+//@ define insType(self *sub) = Sub
 //@ func (*sub).ReadRegisters
 //@   ensures len(result) == 2 && ((result[0] == op.rs1 && result[1] == op.rs2) || (result[0] == op.rs2 && result[1] == op.rs1))
 //@   assigns nothing
@@ -1318,6 +1600,9 @@ package risc
 //@   ensures result.MemoryChanges[old(registerRead(ctx, op.forward, op.rd, sequenceID)) + op.offset + 2] == int8(uint32(old(registerRead(ctx, op.forward, op.rs, sequenceID))) >> 16)
 //@   ensures result.MemoryChanges[old(registerRead(ctx, op.forward, op.rd, sequenceID)) + op.offset + 3] == int8(uint32(old(registerRead(ctx, op.forward, op.rs, sequenceID))) >> 24)
 //@   assigns nothing
+//@ define readCount(self *sw, r RegisterType) = (self.rd == r ? 1 : 0) + (self.rs == r ? 1 : 0)
+//@ define writeCount(self *sw, r RegisterType) = 0
+//@ define insType(self *sw) = Sw
 //@ func (*sw).ReadRegisters
 //@   ensures len(result) == 2 && ((result[0] == op.rd && result[1] == op.rs) || (result[0] == op.rs && result[1] == op.rd))
 //@   assigns nothing
@@ -1350,6 +1635,9 @@ package risc
 //@   ensures result1 == nil ==> result.Register == op.rd
 //@   ensures result1 == nil ==> result.RegisterValue == (op.rd == Zero ? 0 : (old(registerRead(ctx, op.forward, op.rs1, sequenceID))) ^ (old(registerRead(ctx, op.forward, op.rs2, sequenceID))))
 //@   assigns nothing
+//@ define readCount(self *xor, r RegisterType) = (self.rs1 == r ? 1 : 0) + (self.rs2 == r ? 1 : 0)
+//@ define writeCount(self *xor, r RegisterType) = (self.rd == r ? 1 : 0)
+//@ define insType(self *xor) = Xor
 //@ func (*xor).ReadRegisters
 //@   ensures len(result) == 2 && ((result[0] == op.rs1 && result[1] == op.rs2) || (result[0] == op.rs2 && result[1] == op.rs1))
 //@   assigns nothing
@@ -1377,6 +1665,9 @@ package risc
 //@   ensures result1 == nil ==> result.Register == op.rd
 //@   ensures result1 == nil ==> result.RegisterValue == (op.rd == Zero ? 0 : (old(registerRead(ctx, op.forward, op.rs, sequenceID))) ^ op.imm)
 //@   assigns nothing
+//@ define readCount(self *xori, r RegisterType) = (self.rs == r ? 1 : 0)
+//@ define writeCount(self *xori, r RegisterType) = (self.rd == r ? 1 : 0)
+//@ define insType(self *xori) = Xori
 //@ func (*xori).ReadRegisters
 //@   ensures len(result) == 1 && result[0] == op.rs
 //@   assigns nothing
